@@ -521,12 +521,12 @@ def main() -> int:
     setup_process()
     vseed = core.verif_seed()
     print(f"VERIF_SEED={vseed} property={PROP} tier={args.tier} tree={core.src_dir()} workers={core.workers()}")
-    ncases = args.runs if args.runs is not None else int(os.environ.get("VERIF_RUNS") or (12_700 if args.tier == "quick" else 1_500_000))
+    ncases = args.runs if args.runs is not None else int(os.environ.get("VERIF_RUNS") or (38_100 if args.tier == "quick" else 1_500_000))
     derived = str(core.run_seed(vseed, PROP + "-hashseed", 0) % 4294967295)
     hashseeds = ["1", "4242", derived, "0"] if args.tier == "quick" else \
         ["0", "1", "2", "3", "7", "42", "4242", "65535", "99991", "123456789", "4294967295", derived] + \
         [str(core.run_seed(vseed, PROP + "-hashseed", k) % 4294967295) for k in range(1, 5)]
-    nfresh = 2540 if args.tier == "quick" else 12_700
+    nfresh = 3810 if args.tier == "quick" else 12_700
     deadline = runner.wall_cap(args.tier)
     tasks = [{"indices": ch, "vseed": vseed, "deadline": deadline} for ch in runner.chunks(list(range(ncases)), 128)]
     fresh_cases = [gen_case(i, vseed, INFO) for i in range(0, ncases, max(1, ncases // nfresh))][:nfresh]
